@@ -79,7 +79,7 @@ def reload_scripts(rng, n):
         after = [svcs[1]]
         cfg = proto.Config(svcs, timeout=rng.choice([None, 3600]))
         kind = ["more-then-removed", "leaver-then-removed", "more-then-removed", "owed-answer", "two-waiters", "leaver-then-removed", "retry-then-removed",
-                "more-then-replaced"][k_ % 8]
+                "more-then-replaced", "removed-then-leave"][k_ % 9]
         if kind == "more-then-replaced":
             # the challenger is removed and ANOTHER service is added by the same reload (it may take the challenger's place in the table)
             after = [svcs[1], ("new.svc", rng.choice(["login", "login-ipr", "dronecheck"]))]
@@ -98,7 +98,13 @@ def reload_scripts(rng, n):
         tag = lambda cid: "%x_%x" % (cid, ser[cid])
         finish = lambda cid: data[cid] + [{"t": "reply", "svc": "keep.svc", "tag": tag(cid), "text": "OK"}, {"t": "hurry", "id": cid}]
         reload_ev = {"t": "reload", "services": [list(x) for x in after]}
-        if kind == "more-then-removed":
+        if kind == "removed-then-leave":
+            # complete, waiting only for chal.svc; the reload removes chal.svc; the client is withdrawn / registered before any answer:
+            # nothing more may be said about it - and a late answer changes nothing
+            ev += data[5] + [{"t": "reply", "svc": "keep.svc", "tag": tag(5), "text": "OK"}, reload_ev,
+                             {"t": rng.choice(["disconnect", "registered"]), "id": 5}, {"t": "stats"},
+                             {"t": "reply", "svc": "chal.svc", "tag": tag(5), "text": "OK acct5"}]
+        elif kind == "more-then-removed":
             ev += [{"t": "reply", "svc": "chal.svc", "tag": tag(5), "text": "MORE prove it"}, reload_ev, {"t": "password", "id": 5, "text": "response1"}]
             if rng.random() < 0.4:
                 ev += [{"t": "password", "id": 5, "text": "-! acct5 pw2"}]
